@@ -10,6 +10,7 @@ import PsVerif.Model.Sspor
 import PsVerif.Model.Recon
 import PsVerif.Model.Sspoc
 import PsVerif.Model.Geometry
+import PsVerif.Model.Validation
 open PsVerif PsVerif.Proto
 
 def showVerdicts (vs : List StepVerdict) : String :=
@@ -87,6 +88,19 @@ def pCoords : P ((Nat → Pt) × List Nat) := do
 def pOptRatPair : P (Option Rat × Option Rat) := do
   let a ← optRat; let b ← optRat; pure (a, b)
 
+def pPyArg : P PyArg := do
+  let t ← tok
+  if t == "s" then pure .str else if t == "l" then pure .list else if t == "n" then pure .none
+  else if t == "f0" then pure (.float false) else if t == "f1" then pure (.float true) else
+  match t.splitOn ":" with
+  | ["pi", v] => match v.toInt? with | some z => pure (.pyInt z) | none => failure
+  | ["ni", v] => match v.toInt? with | some z => pure (.npInt z) | none => failure
+  | _ => failure
+
+def showOutcome : Outcome → String
+  | .ok => "ok"
+  | .raises e => "E:" ++ e.name
+
 def handle : P String := do
   let cmd ← tok
   match cmd with
@@ -142,6 +156,30 @@ def handle : P String := do
   | "ravel" => do
     let side ← nat; let x ← nat; let y ← nat
     pure s!"ok {ravelF side x y}"
+  | "vrule" => do
+    let ep ← tok
+    match ep with
+    | "basisctor" => do let a ← bool; let v ← pPyArg; pure ("ok " ++ showOutcome (basisCtor a v))
+    | "basisrep" => do let f ← bool; let nm ← nat; let v ← pPyArg; pure ("ok " ++ showOutcome (basisRep f nm v))
+    | "identityfit" => do let k ← optNat; let ne ← nat; pure ("ok " ++ showOutcome (identityFit k ne))
+    | "validate" => do let a ← bool; let w ← nat; let e ← optNat; pure ("ok " ++ showOutcome (validateInput a w e))
+    | "predictguard" => do
+      let f ← bool; let a ← bool; let w ← nat; let ns ← nat
+      pure ("ok " ++ showOutcome (ssporPredictGuard f a w ns))
+    | "fullguard" => do let f ← bool; let w ← nat; let nf ← nat; pure ("ok " ++ showOutcome (ssporFullStateGuard f w nf))
+    | "ccqrctor" => do let d ← optNat; pure ("ok " ++ showOutcome (ccqrCtor d))
+    | "ccqrfit" => do let l ← optNat; let n ← nat; pure ("ok " ++ showOutcome (ccqrFit l n))
+    | "gqropt" => do let t ← tok; pure ("ok " ++ showOutcome (gqrOption (if t == "EMPTY" then "" else t)))
+    | "boxguard" => do
+      let n ← nat; let ints ← bool; let a ← rat; let b ← rat; let c ← rat; let d ← rat; let nx ← bool; let ny ← bool
+      pure ("ok " ++ showOutcome (boxGuard n ints a b c d nx ny))
+    | "ssporctor" => do
+      let v ← pPyArg
+      match v with
+      | .none => pure "ok ok"
+      | _ => pure ("ok " ++ (match Sspor.init { kind := .identity, nModes := none, fitted := none } (some v.toCount) with
+          | some _ => "ok" | none => "E:ValueError"))
+    | _ => failure
   | "predict" => do
     let B ← mat; let sensors ← listOf nat; let Y ← mat
     match predictExact B sensors Y with
